@@ -99,22 +99,52 @@ theorem c20_no_pipe (pipes : List (Option (List K × Bool))) (h : ∀ p, p ∈ p
     rw [h p hp]; simp
   rw [this]
 
-/-- **keyword recognition does not depend on the case of an unquoted keyword token** (`lexer.IsKeyword`): two
-tokens with the same quoting and the same lower-cased text are the same keyword or not -/
+/-- **keyword recognition does not depend on the case of an unquoted keyword token** (`lexer.IsKeyword` =
+`strings.EqualFold`): two tokens with the same quoting and the same folded text are the same keyword or not; an
+ASCII case change never changes the folded text (`foldText_asciiLower`), and neither do the two non-ASCII fold
+partners `ſ` (of `s`) and the Kelvin sign (of `k`) -/
 theorem c20_keyword_case_invariant (t t' : Tok) (kw : List Char) (hq : t.quoted = t'.quoted)
-    (hl : asciiLower t.text = asciiLower t'.text) : isKeyword t kw = isKeyword t' kw := isKeyword_case t t' kw hq hl
+    (hl : foldText t.text = foldText t'.text) : isKeyword t kw = isKeyword t' kw := isKeyword_case t t' kw hq hl
 
-/-- hence `| FIELDS EXCEPT a, b`, `| Fields Except a, b` and `| fields except a, b` parse to the same pipe ... -/
+theorem c20_ascii_case_same_fold (s : List Char) : foldText (asciiLower s) = foldText s := foldText_asciiLower s
+
+/-- hence `| FIELDS EXCEPT a, b`, `| Fields Except a, b`, `| fieldſ except a, b` and `| fields except a, b` parse to
+the same pipe ... -/
 theorem c20_pipe_header_case_invariant (f f' e e' : Tok) (rest : List Tok)
-    (hf : f.quoted = f'.quoted ∧ asciiLower f.text = asciiLower f'.text) (hfk : isKeyword f "fields".toList = true)
-    (he : e.quoted = e'.quoted ∧ asciiLower e.text = asciiLower e'.text) (hek : isKeyword e "except".toList = true) :
+    (hf : f.quoted = f'.quoted ∧ foldText f.text = foldText f'.text) (hfk : isKeyword f "fields".toList = true)
+    (he : e.quoted = e'.quoted ∧ foldText e.text = foldText e'.text) (hek : isKeyword e "except".toList = true) :
     parsePipeFields (f :: e :: rest) = parsePipeFields (f' :: e' :: rest) :=
   parsePipeFields_case f f' e e' rest hf hfk he hek
 
 /-- ... while a quoted `"except"` is an ordinary field name of an allow-list -/
 theorem c20_quoted_except_is_a_field :
-    parsePipeFields [⟨"fields".toList, false⟩, ⟨"except".toList, true⟩, ⟨[','], false⟩, ⟨"a".toList, false⟩] =
-      some (false, ["except".toList, "a".toList], []) := by decide
+    parsePipeFields [⟨"fields".toList, false, true⟩, ⟨"except".toList, true, true⟩, ⟨[','], false, false⟩,
+      ⟨"a".toList, false, true⟩] = some (false, ["except".toList, "a".toList], []) := by decide
+
+/-- the three query texts on which the first version of this model was wrong (found by the consistency layer), now as
+the source has them: `| fields a-b` is ONE composite name, `| fields $` is rejected, `| fieldſ a` is a fields pipe -/
+theorem c20_field_names_are_composite_tokens :
+    parsePipeFields [⟨"fields".toList, false, true⟩, ⟨['a'], false, true⟩, ⟨['-'], false, false⟩, ⟨['b'], false, false⟩]
+      = some (false, ["a-b".toList], []) ∧
+    parsePipeFields [⟨"fields".toList, false, true⟩, ⟨['$'], false, true⟩] = none ∧
+    parsePipeFields [⟨['f', 'i', 'e', 'l', 'd', Char.ofNat 0x17F], false, true⟩, ⟨['a'], false, true⟩]
+      = some (false, [['a']], []) := by decide
+
+/-- white space of any kind before a token (`SpaceSkipped`) ends a composite name, whatever the token is; without
+white space a composite token is glued on -/
+theorem c20_space_ends_composite_name (acc : List Char) (t : Tok) (rest : List Tok) :
+    (t.space = true → joinComposite acc (t :: rest) = (acc, t :: rest)) ∧
+    (t.space = false → isComposite t = true → joinComposite acc (t :: rest) = joinComposite (acc ++ t.text) rest) := by
+  constructor
+  · intro h; simp [joinComposite, h]
+  · intro h hc; simp [joinComposite, h, hc]
+
+/-- `| fields level message` (any white space between) are two names, `| fields level-message` is one -/
+theorem c20_space_separates_names_example :
+    parsePipeFields [⟨"fields".toList, false, true⟩, ⟨"level".toList, false, true⟩, ⟨"message".toList, false, true⟩] =
+      some (false, ["level".toList, "message".toList], []) ∧
+    parsePipeFields [⟨"fields".toList, false, true⟩, ⟨"level".toList, false, true⟩, ⟨['-'], false, false⟩,
+      ⟨"message".toList, false, false⟩] = some (false, ["level-message".toList], []) := by decide
 
 /-! ## Obligations on facts re-extracted from /repo on every run -/
 open SV.Extracted.C20
@@ -184,10 +214,13 @@ theorem c20_x_keywords_case_insensitive :
 
 /-! ## Non-vacuity -/
 
-example : parsePipeFields [⟨"FIELDS".toList, false⟩, ⟨"Except".toList, false⟩, ⟨"a".toList, false⟩, ⟨[','], false⟩,
-    ⟨"b".toList, false⟩, ⟨['|'], false⟩] = some (true, ["a".toList, "b".toList], [⟨['|'], false⟩]) := by decide
-example : isKeyword ⟨"EXCEPT".toList, false⟩ "except".toList = true ∧ isKeyword ⟨"except".toList, true⟩ "except".toList = false := by
-  decide
+example : parsePipeFields [⟨"FIELDS".toList, false, true⟩, ⟨"Except".toList, false, true⟩, ⟨"a".toList, false, true⟩,
+    ⟨[','], false, false⟩, ⟨"b".toList, false, true⟩, ⟨['|'], false, true⟩] =
+    some (true, ["a".toList, "b".toList], [⟨['|'], false, true⟩]) := by decide
+example : isKeyword ⟨"EXCEPT".toList, false, true⟩ "except".toList = true ∧
+    isKeyword ⟨"except".toList, true, true⟩ "except".toList = false := by decide
+example : parsePipeFields [⟨"fields".toList, false, true⟩, ⟨"level".toList, false, true⟩, ⟨"message".toList, false, true⟩] =
+    some (false, ["level".toList, "message".toList], []) := by decide
 
 
 example : filterAllow ["a", "c", "zz"] [(⟨0, "a", 1⟩ : Fld String Nat), ⟨1, "b", 2⟩, ⟨2, "c", 3⟩, ⟨3, "d", 4⟩] =
